@@ -15,6 +15,7 @@ acceptance from the class exactly as the Rust comparisons do (`NaN < 0.0` and `N
 both false, `NaN as u64 = 0`).
 -/
 import OrdModel.Num.Degree
+import OrdModel.Generated.SatFix
 namespace Ord.SatNotation
 open Ord Ord.Epoch
 
@@ -140,32 +141,56 @@ def fromDecimal (cs : List Char) : Outcome Nat :=
         if k ≥ Height.subsidy h then .err "BlockOffset" else satAt h k
 
 /-- the arithmetic of `from_degree` between the three component parses and the `‴` split:
-cycle start epoch, the 336-relationship, epoch, height — all in u32 -/
+cycle start epoch, the 336-relationship, epoch, height — all in u32, each step width-checked
+in source order (written as a chain of guards: the value of every step is the plain `Nat`
+expression once its guard has passed) -/
 def degreeHeight (cycle epochOffset periodOffset : Nat) : Outcome Nat :=
-  match Outcome.mulW 32 "mul@from_degree:cycle*6" cycle CYCLE_EPOCHS with
-  | .ok cycleStartEpoch =>
-    -- `period_offset + SUBSIDY_HALVING_INTERVAL * CYCLE_EPOCHS - epoch_offset`
-    match Outcome.addW 32 "add@from_degree:relationship" periodOffset (SUBSIDY_HALVING_INTERVAL * CYCLE_EPOCHS) with
-    | .ok r0 =>
-      match Outcome.subW "sub@from_degree:relationship" r0 epochOffset with
-      | .ok relationship =>
-        if relationship % 336 ≠ 0 then .err "EpochPeriodMismatch"
-        else
-          let since := relationship % DIFFCHANGE_INTERVAL / 336
-          match Outcome.addW 32 "add@from_degree:epoch" cycleStartEpoch since with
-          | .ok epoch =>
-            match Outcome.mulW 32 "mul@from_degree:epoch*210000" epoch SUBSIDY_HALVING_INTERVAL with
-            | .ok eh => Outcome.addW 32 "add@from_degree:height" eh epochOffset
-            | .err e => .err e
-            | .panic p => .panic p
-          | .err e => .err e
-          | .panic p => .panic p
-      | .err e => .err e
-      | .panic p => .panic p
-    | .err e => .err e
-    | .panic p => .panic p
-  | .err e => .err e
-  | .panic p => .panic p
+  -- `cycle_number * CYCLE_EPOCHS`
+  if ¬ cycle * CYCLE_EPOCHS < 2 ^ 32 then .panic "mul@from_degree:cycle*6"
+  -- `period_offset + SUBSIDY_HALVING_INTERVAL * CYCLE_EPOCHS - epoch_offset`
+  else if ¬ periodOffset + SUBSIDY_HALVING_INTERVAL * CYCLE_EPOCHS < 2 ^ 32 then
+    .panic "add@from_degree:relationship"
+  else if ¬ epochOffset ≤ periodOffset + SUBSIDY_HALVING_INTERVAL * CYCLE_EPOCHS then
+    .panic "sub@from_degree:relationship"
+  else if (periodOffset + SUBSIDY_HALVING_INTERVAL * CYCLE_EPOCHS - epochOffset) % 336 ≠ 0 then
+    .err "EpochPeriodMismatch"
+  -- `epoch = cycle_start_epoch + relationship % DIFFCHANGE_INTERVAL / HALVING_INCREMENT`
+  else if ¬ cycle * CYCLE_EPOCHS +
+      (periodOffset + SUBSIDY_HALVING_INTERVAL * CYCLE_EPOCHS - epochOffset) % DIFFCHANGE_INTERVAL / 336 < 2 ^ 32 then
+    .panic "add@from_degree:epoch"
+  -- `Height(epoch * SUBSIDY_HALVING_INTERVAL + epoch_offset)`
+  else if ¬ (cycle * CYCLE_EPOCHS +
+      (periodOffset + SUBSIDY_HALVING_INTERVAL * CYCLE_EPOCHS - epochOffset) % DIFFCHANGE_INTERVAL / 336) *
+        SUBSIDY_HALVING_INTERVAL < 2 ^ 32 then
+    .panic "mul@from_degree:epoch*210000"
+  else if ¬ (cycle * CYCLE_EPOCHS +
+      (periodOffset + SUBSIDY_HALVING_INTERVAL * CYCLE_EPOCHS - epochOffset) % DIFFCHANGE_INTERVAL / 336) *
+        SUBSIDY_HALVING_INTERVAL + epochOffset < 2 ^ 32 then
+    .panic "add@from_degree:height"
+  else .ok ((cycle * CYCLE_EPOCHS +
+      (periodOffset + SUBSIDY_HALVING_INTERVAL * CYCLE_EPOCHS - epochOffset) % DIFFCHANGE_INTERVAL / 336) *
+        SUBSIDY_HALVING_INTERVAL + epochOffset)
+
+/-- u32 `saturating_*` result -/
+def sat32 (x : Nat) : Nat := if x < 2 ^ 32 then x else 2 ^ 32 - 1
+
+/-- `degreeHeight` after notes/fix-sat-degree-overflow.diff: `saturating_mul` / `saturating_add`
+for the cycle start epoch, the epoch and the height (the relationship line is unchanged) -/
+def degreeHeightFixed (cycle epochOffset periodOffset : Nat) : Outcome Nat :=
+  if ¬ periodOffset + SUBSIDY_HALVING_INTERVAL * CYCLE_EPOCHS < 2 ^ 32 then
+    .panic "add@from_degree:relationship"
+  else if ¬ epochOffset ≤ periodOffset + SUBSIDY_HALVING_INTERVAL * CYCLE_EPOCHS then
+    .panic "sub@from_degree:relationship"
+  else if (periodOffset + SUBSIDY_HALVING_INTERVAL * CYCLE_EPOCHS - epochOffset) % 336 ≠ 0 then
+    .err "EpochPeriodMismatch"
+  else .ok (sat32 (sat32 (sat32 (sat32 (cycle * CYCLE_EPOCHS) +
+      (periodOffset + SUBSIDY_HALVING_INTERVAL * CYCLE_EPOCHS - epochOffset) % DIFFCHANGE_INTERVAL / 336) *
+        SUBSIDY_HALVING_INTERVAL) + epochOffset))
+
+/-- the code as it is (`fixed = false`) or with the repair applied (`fixed = true`) -/
+def degreeHeightWith (fixed : Bool) (cycle epochOffset periodOffset : Nat) : Outcome Nat :=
+  if fixed then degreeHeightFixed cycle epochOffset periodOffset
+  else degreeHeight cycle epochOffset periodOffset
 
 /-- the tail of `from_degree`: optional `‴` part, trailing characters, block offset -/
 def degreeTail (height : Nat) (rest : List Char) : Outcome Nat :=
@@ -180,8 +205,8 @@ def degreeTail (height : Nat) (rest : List Char) : Outcome Nat :=
     | .ok k => finish k rest'
   | none => finish 0 rest
 
-/-- `Sat::from_degree` -/
-def fromDegree (cs : List Char) : Outcome Nat :=
+/-- `Sat::from_degree` (`fixed`: with notes/fix-sat-degree-overflow.diff applied) -/
+def fromDegreeWith (fixed : Bool) (cs : List Char) : Outcome Nat :=
   match splitOnce degreeSym cs with
   | none => .err "MissingDegree"
   | some (cyc, rest) =>
@@ -204,7 +229,7 @@ def fromDegree (cs : List Char) : Outcome Nat :=
               | .ok periodOffset =>
                 if periodOffset ≥ DIFFCHANGE_INTERVAL then .err "PeriodOffset"
                 else
-                  match degreeHeight cycle epochOffset periodOffset with
+                  match degreeHeightWith fixed cycle epochOffset periodOffset with
                   | .ok height => degreeTail height rest
                   | .err e => .err e
                   | .panic p => .panic p
@@ -218,13 +243,15 @@ inductive FloatClass where
   | inRange (n : Nat)
   deriving Repr, DecidableEq, Inhabited
 
-/-- `Sat::from_percentile` -/
-def fromPercentile (cs : List Char) (fc : FloatClass) : Outcome Nat :=
+/-- `Sat::from_percentile` (`fixed`: with notes/fix-sat-percentile-nan.diff applied, NaN is
+rejected by the sign check) -/
+def fromPercentileWith (fixed : Bool) (cs : List Char) (fc : FloatClass) : Outcome Nat :=
   if cs.getLast? ≠ some '%' then .err "Percentile"
   else match fc with
     | .unknown => .err "model:no-float-class"
     | .parseErr => .err "ParseFloat"
-    | .nan => .ok 0            -- both comparisons false, `NaN as u64` = 0
+    | .nan => if fixed then .err "Percentile"
+      else .ok 0            -- both comparisons false, `NaN as u64` = 0
     | .neg => .err "Percentile"
     | .over => .err "Percentile"
     | .inRange n => .ok n
@@ -251,14 +278,19 @@ def dispatch (cs : List Char) : Notation :=
   else if cs.contains '.' then .decimal
   else .integer
 
-/-- `impl FromStr for Sat` -/
-def fromStr (cs : List Char) (fc : FloatClass) : Outcome Nat :=
+/-- `impl FromStr for Sat`, parametrised by which of the two C31 repairs are applied -/
+def fromStrWith (degreeFixed percentileFixed : Bool) (cs : List Char) (fc : FloatClass) : Outcome Nat :=
   match dispatch cs with
   | .name => fromName cs
-  | .degree => fromDegree cs
-  | .percentile => fromPercentile cs fc
+  | .degree => fromDegreeWith degreeFixed cs
+  | .percentile => fromPercentileWith percentileFixed cs fc
   | .decimal => fromDecimal cs
   | .integer => fromInteger cs
+
+/-- `impl FromStr for Sat` as it is in the source tree: the two flags are re-extracted from
+`crates/ordinals/src/sat.rs` on every run (`tools/extractors/sat_fix.py`) -/
+def fromStr (cs : List Char) (fc : FloatClass) : Outcome Nat :=
+  fromStrWith Ord.Generated.SatFix.degreeFixed Ord.Generated.SatFix.percentileFixed cs fc
 
 /-! ## grammar semantics ("denotes"), independent of the parsers' arithmetic
 
